@@ -422,6 +422,9 @@ class AshProtocol(asyncio.Protocol):
             else:
                 out.append(c)
 
+        if escaped:
+            raise ParsingError("Incomplete escape sequence at the end of the frame")
+
         return out
 
     def data_received(self, data: bytes) -> None:
